@@ -39,10 +39,14 @@ def modules_of_props():
 def main():
     mods = modules_of_props()
     rc = 0
+    import multiprocessing
+    paths = [p_ for d in sys.argv[1:] for p_ in sorted(glob.glob("/tmp/wt/out/%s/ref*.diff" % d))]
+    with multiprocessing.get_context("fork").Pool(8) as pool:
+        results = dict((r[0], r) for r in pool.map(one, paths))
     for d in sys.argv[1:]:
         for path in sorted(glob.glob("/tmp/wt/out/%s/ref*.diff" % d)):
             sid = "%s-%s" % (d, os.path.basename(path)[:-5])
-            _p, hits, err = one(path)
+            _p, hits, err = results[path]
             if err or hits:
                 print("%-14s NOT filed: %s" % (sid, err or sorted(hits)))
                 rc = 1
